@@ -198,7 +198,7 @@ func (s *Syncer) syncLoop(ctx context.Context, env *lmdb.Env, r *receiver.Receiv
 	loadReadySnapshotsLoop:
 		for {
 			instance, update := r.Next()
-			verifYield(s, "loop.next", instance)
+			verifYield(s, "loop.next", instance, update.NameInfo.FullName)
 			if instance == "" {
 				break loadReadySnapshotsLoop // no more ready remote snapshots
 			}
@@ -534,7 +534,7 @@ func (s *Syncer) LoadOnce(ctx context.Context, env *lmdb.Env, instance string, u
 		// We always return LMDB reading errors, as these are really unexpected
 		return 0, false, err
 	}
-	verifYield(s, "load.txnDone", txnID, localChanged)
+	verifYield(s, "load.txnDone", txnID, localChanged, tTxnAcquire)
 	tLoaded := time.Now()
 
 	// If no actual changes were made, LMDB will not record the transaction
